@@ -8,7 +8,7 @@
 (*           - the property quantifies over trees sharing one fixed set of *)
 (*           dimensions)                                                   *)
 (*          (+ weight : Dims -> Nat, the shared weight used by C02)        *)
-(*   pod    live pod id -> [q, req, np, assigned]                          *)
+(*   pod    live pod id -> [q, req, np, assigned, bound]                   *)
 (*          q   quota the pod is accounted in                              *)
 (*          req Dims -> Nat ; np = non-preemptible ; assigned = holds      *)
 (*          resources (reserved / bound)                                   *)
@@ -101,19 +101,23 @@ QuotaDeleteF(S, n) ==
 PodAddOK(S, p, q) == p \notin DOMAIN S.pod /\ q \in DOMAIN S.quota
 PodAddF(S, p, q, req, np, bound) ==
     [S EXCEPT !.pod = [x \in (DOMAIN S.pod) \cup {p} |->
-                          IF x = p THEN [q |-> q, req |-> req, np |-> np, assigned |-> bound] ELSE S.pod[x]]]
+                          IF x = p THEN [q |-> q, req |-> req, np |-> np, assigned |-> bound, bound |-> bound] ELSE S.pod[x]]]
 
 \* spec / label / node change of a known pod; moving it to another group re-derives `assigned`
 \* from the object (bound), staying in the group keeps an assignment made by Reserve
 PodUpdateOK(S, p, q) == p \in DOMAIN S.pod /\ q \in DOMAIN S.quota
 PodUpdateF(S, p, q, req, np, bound) ==
     [S EXCEPT !.pod[p] = [q |-> q, req |-> req, np |-> np,
-                          assigned |-> IF q = S.pod[p].q THEN (S.pod[p].assigned \/ bound) ELSE bound]]
+                          assigned |-> IF q = S.pod[p].q THEN (S.pod[p].assigned \/ bound) ELSE bound,
+                          bound |-> bound]]        \* bound = the object carries a node name = the assignment is PERSISTED
 
 PodKnown(S, p)   == p \in DOMAIN S.pod
 PodDeleteF(S, p) == [S EXCEPT !.pod = [x \in (DOMAIN S.pod) \ {p} |-> S.pod[x]]]
 ReserveF(S, p)   == [S EXCEPT !.pod[p].assigned = TRUE]
 UnreserveF(S, p) == [S EXCEPT !.pod[p].assigned = FALSE]
+\* C19: the scheduler restarts; a fresh manager sees only the persisted objects, so exactly the pods whose
+\* object carries a node name are assigned afterwards (a reservation that was not bound yet is lost, by design)
+RestartF(S) == [S EXCEPT !.pod = [p \in DOMAIN S.pod |-> [S.pod[p] EXCEPT !.assigned = S.pod[p].bound]]]
 MigrateOK(S, p, in) == p \in DOMAIN S.pod /\ in \in DOMAIN S.quota /\ in # S.pod[p].q
 MigrateF(S, p, in)  == [S EXCEPT !.pod[p].q = in]
 
